@@ -38,6 +38,11 @@ def main(argv=None):
         rc = ck.finish()
     except Broken as e:
         msg = str(e).replace("\n", " | ")
+        if ck.violations and msg.startswith("fixture "):
+            # the positive-control fixture no longer compiles against this tree (an interface it includes changed); obligations
+            # on the tree itself were already refuted, and a control is only there to guard against vacuous passes
+            ck.note("positive control skipped: %s" % msg[:200])
+            return ck.finish()
         print("ANALYSIS-BROKEN property=%s reason=%s" % (pid, msg[:1500]))
         try:
             ck.write_evidence(0, 0, broken=msg[:1500])
